@@ -76,6 +76,12 @@ theorem C06_abi_Statement_fails : ¬ C06_abi_Statement := by
   revert this
   decide
 
+theorem C06_va_Statement_fails : ¬ C06_va_Statement := by
+  intro h
+  have := h wVa (by decide) (by decide) (by decide)
+  revert this
+  decide
+
 theorem C06_self_Statement_fails : ¬ C06_self_Statement := by
   intro h
   obtain ⟨a, _, h2⟩ := h wPacked
